@@ -215,7 +215,8 @@ def main():
   rep.note(bruteforce_cases=nb, unrepresentable_by_class={k: len(v) for k, v in by_class.items()},
            unrepresentable_examples={k: v[0] for k, v in by_class.items()})
   rep.assumptions += ["value sets as in QTools/Types.v", "np.ceil(np.log2(n)) agrees with Z.log2_up (compared at 2^k, 2^k+-1, k <= 20, on every run)"]
-  return rep.finish(vlib.TRUSTED_COMMON + ["model QTools/Ops.v is a hand transcription; tie = comparison of every reported type with the implementation over the operand lattice"])
+  return rep.finish(vlib.TRUSTED_COMMON + ["translators tools/translate/{qtoolsops,mergegen}.py regenerate coq/gen/{QToolsOps,MergeGen}.v; Link/{QToolsLink,MergeLink}.v prove them equal to QTools/Ops.v",
+                                          "model QTools/Ops.v is a hand transcription; tie = comparison of every reported type with the implementation over the operand lattice"])
 
 
 if __name__ == "__main__":
